@@ -5,6 +5,7 @@ package main
 import (
 	"fmt"
 	"sync"
+	"time"
 
 	"golang.org/x/tools/go/ssa"
 )
@@ -71,6 +72,8 @@ type Exec struct {
 	held            map[*Obj]bool // mutexes held (sequential mode)
 	funcs           map[string]bool
 	env             *Env
+	boundReported   bool
+	pathStart       time.Time
 	frames          []*Frame
 	stack           []*ssa.Function
 	curCallPos      string
@@ -254,6 +257,7 @@ func (e *Exec) branch(c *Term) bool {
 		return v
 	}
 	e.nontriv = true
+	e.pathBudget()
 	if d, ok := e.nextPrefix(); ok {
 		e.record(d)
 		if !d.Forced {
